@@ -1,6 +1,8 @@
 import TTV.Model.StreamDeco
 import TTV.Generated.C11
 import TTV.Spec.C11
+import TTV.Lemmas.DecoSrc
+import TTV.Generated.DecoSrc
 /-! # C11 — stream decorators forward each event once, change only their field, never alias
 
 All statements are for **every** decorator tree (any depth and fan-out), every heap of caller objects and
@@ -218,10 +220,10 @@ theorem deliver_status : ∀ (d : Dec) (n : Nat) (h : Heap) (e : EventOf Ref), V
   | .stamp t, n, h, e, hv => by
       simp only [deliver, paths]
       have ih := deliver_status t n h
-        { e with timestamp := match e.timestamp with | none => some .now | some s => some s } hv
+        { e with timestamp := fillNow e.timestamp } hv
       refine ⟨ih.1, All2.map_left _ (All2.imp (fun p g hh => ?_) ih.2)⟩
       apply StatusRel.step .stamp
-      have : valOf h { e with timestamp := match e.timestamp with | none => some .now | some s => some s }
+      have : valOf h { e with timestamp := fillNow e.timestamp }
           = applyStep (valOf h e) .stamp := by
         simp only [valOf, snapEvent, applyStep]
         cases e.timestamp <;> rfl
@@ -577,5 +579,59 @@ example :
 regenerated on every run into `TTV/Generated/C11.lean`) is the model's `tagged` -/
 theorem C11_src_tagger (h : Heap) (e : EventOf Ref) (add discard : List Nat) :
     tagged h e add discard = norm (TTV.Generated.C11.taggerTags_src ((deref h e.tags).getD []) add discard) := rfl
+
+/-! ## more ties to the source (`harness/pystream.py` → `TTV/Generated/DecoSrc.lean`, regenerated on every run) -/
+open TTV.DecoSrc in
+/-- **`TimestampingStreamResult.status` is the code's**: the timestamp handed on is the term found in the source — the
+supplied one if it `is not None`, else `datetime.now(utc)` — and everything else goes to `super().status` (the copy to
+the one target) unchanged: the model's `.stamp` step -/
+theorem C11_src_stamp (n : Nat) (t : Dec) (h : Heap) (e : EventOf Ref) :
+    ∃ e', stampInterp Generated.DecoSrc.stampTimestamp e = some e' ∧ deliver n (.stamp t) h (.status e) = deliver n t h (.status e') := by
+  have hg : Generated.DecoSrc.stampTimestamp = refStamp := by decide
+  rw [hg]
+  exact ⟨_, stampInterp_ref e, by simp [deliver]⟩
+
+open TTV.DecoSrc in
+/-- **`StreamToQueue.status` / `route_code` are the code's**: every key of the enqueued dict is fed by the parameter of the
+same name, `route_code` by `self.route_code(route_code)` = the routing code alone if the event has none (`is None`), else
+`routing_code + "/" + route_code`: the model's `.toQueue` step -/
+theorem C11_src_queue (n : Nat) (code : Str) (t : Dec) (h : Heap) (e : EventOf Ref) :
+    ∃ e', qInterp Generated.DecoSrc.queueDict Generated.DecoSrc.queueRoute code e = some e'
+      ∧ deliver n (.toQueue code t) h (.status e) = deliver n t h (.status e') := by
+  have h1 : Generated.DecoSrc.queueDict = refQueueDict := by decide
+  have h2 : Generated.DecoSrc.queueRoute = refQueueRoute := by decide
+  rw [h1, h2]
+  exact ⟨_, qInterp_ref code e, by simp [deliver]⟩
+
+open TTV.DecoSrc in
+/-- every explicit `status` signature (`StreamResult`, `StreamFailFast`, `_StreamToTestRecord`, `StreamToQueue`) lists the ten
+parameters in the same order — what a positional call through `CopyStreamResult`'s `*args` relies on -/
+theorem C11_src_status_params :
+    Generated.DecoSrc.statusParams.map (·.1) = ["StreamResult", "StreamFailFast", "_StreamToTestRecord", "StreamToQueue"]
+    ∧ ∀ p ∈ Generated.DecoSrc.statusParams, p.2 = canonical := by decide
+
+open TTV.DecoSrc in
+/-- **`CopyStreamResult` is the code's**: each of `startTestRun`, `stopTestRun`, `status` calls `super()` and then the same
+method with the same arguments on every target, in order, once -/
+theorem C11_src_copy (n : Nat) (ts : List Dec) (h : Heap) (m : Msg) :
+    cInterp n ts h m Generated.DecoSrc.copyStart none = some (deliver n (.copy ts) h m)
+    ∧ cInterp n ts h m Generated.DecoSrc.copyStop none = some (deliver n (.copy ts) h m)
+    ∧ cInterp n ts h m Generated.DecoSrc.copyStatus none = some (deliver n (.copy ts) h m) := by
+  have h1 : Generated.DecoSrc.copyStart = refCopy := by decide
+  have h2 : Generated.DecoSrc.copyStop = refCopy := by decide
+  have h3 : Generated.DecoSrc.copyStatus = refCopy := by decide
+  rw [h1, h2, h3]
+  have : deliver n (.copy ts) h m = deliverL n ts h m := by cases m <;> simp [deliver]
+  simp [cInterp_ref, this]
+
+open TTV.DecoSrc in
+/-- **`StreamFailFast.status` is the code's**: `on_error()` exactly when `test_status` is one of the statuses of the tuple
+in the source — which agrees with the behaviourally extracted table `Generated.Stream.failFast` -/
+theorem C11_src_failfast (n : Nat) (h : Heap) (e : EventOf Ref) :
+    ∃ b, ffInterp e.status Generated.DecoSrc.failFastStatus = some b
+      ∧ deliver n .failfast h (.status e) = (h, [if b then [.fired n] else []]) := by
+  have hg : Generated.DecoSrc.failFastStatus = refFailFast := by decide
+  rw [hg]
+  exact ⟨_, ffInterp_ref e.status, by simp [deliver]⟩
 
 end TTV.Props.C11
